@@ -105,8 +105,11 @@ class G:
                 elif pb == 2 and r.random() < 0.5:
                     b = f"({b})"
                 return f"{a} {op} {b}", 0
-            if op == "/" and b.strip("()") in ("0", "0.0"):
+            # no literal zero as a factor or divisor: log(q*0), 1/(0*x) are undefined for every input (sympy: zoo)
+            if b.strip("()") in ("0", "0.0"):
                 b = self.lit(nonzero=True)
+            if a.strip("()") in ("0", "0.0"):
+                a = self.lit(nonzero=True)
             if pa < 1:
                 a = f"({a})"
             if pb < 1 or (op == "/" and pb <= 1):
@@ -241,7 +244,7 @@ def program(i, profile="full", depth=3, components=True, odd_names=True, annotat
         if j and r.random() < 0.5:
             avail = avail + inters[max(0, j - 2):j] * 2     # bias towards chains
         # an intermediate is never a bare constant (known finding C01|KNOWN:const-zero-divisor: constant zero divisors)
-        e, _ = g.var_expr(r.choice([1, 2, depth]), avail) if (avail and r.random() < 0.9) else (g.lit(nonzero=True), 4)
+        e, _ = g.var_expr(r.choice([1, 2, depth]), avail)
         if profile == "full" and r.random() < 0.06 and avail:
             nm = [x for x in avail if x in states or x in params]
             if len(nm) >= 2:   # a comparison used as a number (two different plain quantities: sympy cannot fold it)
@@ -274,6 +277,8 @@ def program(i, profile="full", depth=3, components=True, odd_names=True, annotat
         hdr = [x for x in ([pl, sl] if order < 0.6 else [sl, pl]) if x]
         body = [f"{n} = {e}" for n, e in defs]
         r.shuffle(body)
+        blocks = ([("parameters", None, [f"{p}={pval[p]}" for p in params])] if params else []) + \
+            [("states", None, [f"{s}={sval[s]}" for s in states]), ("expr", None, list(body))]
         if comments and r.random() < 0.3:
             hdr.insert(0, "# generated model")
         if comments and r.random() < 0.3:
@@ -290,15 +295,23 @@ def program(i, profile="full", depth=3, components=True, odd_names=True, annotat
             comp_of[p] = r.choice(cn)
         for n in inters:
             comp_of[n] = r.choice(cn)
-        blocks = []
+        dblocks = []
+        sblocks = []
         for c in cn:
             ps = [p for p in params if comp_of[p] == c]
             ss = [s for s in states if comp_of[s] == c]
             if ps:
-                blocks.append(f'parameters("{c}", ' + ", ".join(_decl(r, p, pval[p], annotate) for p in ps) + ")")
+                items = [_decl(r, p, pval[p], annotate) for p in ps]
+                dblocks.append(f'parameters("{c}", ' + ", ".join(items) + ")")
+                sblocks.append(("parameters", c, items))
             if ss:
-                blocks.append(f'states("{c}", ' + ", ".join(_decl(r, s, sval[s], annotate) for s in ss) + ")")
-        r.shuffle(blocks)
+                items = [_decl(r, s, sval[s], annotate) for s in ss]
+                dblocks.append(f'states("{c}", ' + ", ".join(items) + ")")
+                sblocks.append(("states", c, items))
+        order = list(range(len(dblocks)))
+        r.shuffle(order)
+        dblocks = [dblocks[k] for k in order]
+        sblocks = [sblocks[k] for k in order]
         eb = []
         for c in cn:
             body = [f"{n} = {e}" for n, e in defs if comp_of[n] == c]
@@ -306,11 +319,12 @@ def program(i, profile="full", depth=3, components=True, odd_names=True, annotat
             if body:
                 eb.append([f'{r.choice(["expressions", "component"])}("{c}")'] + body)
         r.shuffle(eb)
-        lines = blocks + [ln for b in eb for ln in b]
+        lines = dblocks + [ln for b in eb for ln in b]
+        blocks = sblocks + [("expr", b[0].split('"')[1], b[1:]) for b in eb]
     text = "\n".join(lines) + "\n"
     return {"family": "GEN", "id": f"{profile}{depth}:{i}:{text_id(text)[:6]}", "text": text,
             "meta": {"i": i, "profile": profile, "ncomp": ncomp, "states": states, "params": params, "inters": inters,
-                     "hidden": sorted(hidden)}}
+                     "hidden": sorted(hidden), "blocks": blocks}}
 
 
 # Programs of the universe that run into a recorded (not repaired) defect of gotranx.  They are left out of the generated
